@@ -15,6 +15,11 @@ FORBIDDEN = {'eval', 'exec', 'compile', 'open', '__import__', 'getattr', 'setatt
 DEC_NAMES = ('decimal.Decimal', 'Decimal')
 
 
+def F_CAP():
+    from .families import CAP
+    return CAP
+
+
 class Stubs:
     def __init__(self, engine, model):
         self.engine = engine
@@ -228,7 +233,7 @@ class Stubs:
         v = ex.to_val(args[0])
         n, arr = self.model.iter_snapshot(ex, v)
         r = ex.new_list(n, arr)
-        ex.event('write', 'list', 'list()', r, z3.IntVal(0), n, ())
+        ex.event('write', 'list', 'list()<%s>' % ex.last_snapshot_kind, r, z3.IntVal(0), n, ())
         ex.event('list_from', r, v)
         return L.ListV(r)
 
@@ -238,7 +243,7 @@ class Stubs:
         v = ex.to_val(args[0])
         n, arr = self.model.iter_snapshot(ex, v)
         r = ex.new_list(n, arr, 'tuple')
-        ex.event('write', 'list', 'tuple()', r, z3.IntVal(0), n, ())
+        ex.event('write', 'list', 'tuple()<%s>' % ex.last_snapshot_kind, r, z3.IntVal(0), n, ())
         return L.TupleV(r)
 
     def b_dict(self, ex, args, kwargs):
@@ -256,12 +261,16 @@ class Stubs:
             ex.dict_write('copy', r, h.dlen(sr), h.arr('DHAS')[sr], h.arr('DVAL')[sr], h.arr('DKEY')[sr])
             ex.event('dict_copy', r, sr)
             return L.DictV(r)
+        if ex.branch(L.is_Str(v), 'dict-of-str'):
+            if ex.branch(L.slen(Val.s(v)) == 0, 'dict-of-empty-str'):
+                return L.DictV(ex.new_dict())
+            ex.raise_('ValueError', 'dictionary update sequence element has length 1; 2 is required')
         n, arr = self.model.iter_snapshot(ex, v)
         ex.may_raise(['TypeError', 'ValueError'], 'dict() of non-pairs')
         m = ex.fresh_int('dlen')
         ex.assume(z3.And(m >= 0, m <= n))
         r = ex.new_dict()
-        ex.dict_write('from-pairs', r, m, z3.Const(ex.fresh_name('dhas'), z3.ArraySort(Val, B)),
+        ex.dict_write('from-pairs<%s>' % ex.last_snapshot_kind, r, m, z3.Const(ex.fresh_name('dhas'), z3.ArraySort(Val, B)),
                       z3.Const(ex.fresh_name('dval'), z3.ArraySort(Val, Val)), None)
         ex.event('dict_from_pairs', r, v)
         return L.DictV(r)
@@ -342,7 +351,7 @@ class Stubs:
         out = z3.Const(ex.fresh_name('sorted'), z3.ArraySort(I, Val))
         ex.note_array_elems(out, ('perm', arr))
         r = ex.new_list(n, out)
-        ex.event('write', 'list', 'sorted()', r, z3.IntVal(0), n, ())
+        ex.event('write', 'list', 'sorted()<%s>' % ex.last_snapshot_kind, r, z3.IntVal(0), n, ())
         ex.event('sorted_from', r, v)
         return L.ListV(r)
 
@@ -351,12 +360,15 @@ class Stubs:
         if ex.branch(z3.Or(L.is_List(v), L.is_Tuple(v)), 'reversed-seq'):
             r = self.model.seq_ref_b(ex, v)
             n = ex.heap.llen(r)
-            ex.assume(n >= 0)
+            ex.assume(z3.And(n >= 0, n <= F_CAP()))
             it = L.OpaqueV(L.OK['iterator'], ex.fresh_int('rev'))
             d = IterDesc('reversed', ref=r, n=n)
             heap_arr = ex.heap.lelts(r)
             j = z3.Int('j!rev')
-            d.snap = lambda e, n=n, a=heap_arr: (n, z3.Lambda([j], z3.Select(a, n - 1 - j)))
+            def snap_rev(e, n=n, a=heap_arr):
+                e.last_snapshot_kind = 'seq'
+                return n, z3.Lambda([j], z3.Select(a, n - 1 - j))
+            d.snap = snap_rev
             ex.iter_descs[it.get_id()] = d
             return it
         if ex.branch(L.is_Str(v), 'reversed-str'):
@@ -371,6 +383,18 @@ class Stubs:
             return it
         if ex.branch(L.is_Dict(v), 'reversed-dict'):
             it = L.OpaqueV(L.OK['iterator'], ex.fresh_int('rev'))
+            r = L.simp(Val.dref(v))
+            d = IterDesc('unknown')
+
+            def snap(e, r=r):
+                n = e.heap.dlen(r)
+                e.assume(z3.And(n >= 0, n <= F_CAP()))
+                out = z3.Const(e.fresh_name('revkeys'), z3.ArraySort(I, Val))
+                e.note_array_elems(out, ('perm', e.heap.arr('DKEY')[r]))
+                e.last_snapshot_kind = 'dict'
+                return n, out
+            d.snap = snap
+            ex.iter_descs[it.get_id()] = d
             return it
         ex.raise_('TypeError', 'argument to reversed() must be a sequence')
 
@@ -731,8 +755,15 @@ class Stubs:
             ex.perms.append((arr, ex.heap.lelts(r), n))
             ex.list_write('shuffle', r, n, arr)
             return L.NoneV
-        ex.may_raise(['TypeError'], 'shuffle of non-list')
-        return self.unknown_call(ex, 'random.shuffle-on-other', [v])
+        if ex.branch(z3.Or(L.is_Opaque(v), L.is_Obj(v)), 'shuffle-opaque'):
+            return self.unknown_call(ex, 'random.shuffle-on-other', [v])
+        if ex.branch(z3.Or(z3.And(L.is_Dict(v), ex.heap.dlen(Val.dref(v)) <= 1),
+                           z3.And(L.is_Tuple(v), ex.heap.llen(Val.tref(v)) <= 1),
+                           z3.And(L.is_Str(v), L.slen(Val.s(v)) <= 1)), 'shuffle-trivial'):
+            # nothing to swap: returns without touching the argument
+            return L.NoneV
+        k = ex.choose(3, 'shuffle-exc')
+        ex.raise_(['TypeError', 'KeyError', 'IndexError'][k], 'shuffle of a non-list')
 
     # regex ---------------------------------------------------------------------------------
     def _regex_call(self, ex, fn, args, kwargs):
@@ -765,6 +796,16 @@ class Stubs:
         ex.event('write', 'list', 'findall', r, z3.IntVal(0), n, ())
         ex.event('list_from_str', r, subj)
         return L.ListV(r)
+
+    def x_regex_compile(self, ex, args, kwargs):
+        vals = [ex.to_val(a) for a in args]
+        kw = {k: ex.to_val(v) for k, v in kwargs.items()}
+        ex.event('regex_compile', tuple(vals), kw)
+        ex.may_raise(['RegexError', 'TypeError', 'ValueError'], 'regex.compile')
+        p = L.OpaqueV(L.OK['pattern'], ex.fresh_int('pattern'))
+        ex.compiled = getattr(ex, 'compiled', {})
+        ex.compiled[p.get_id()] = vals[0] if vals else None
+        return p
 
     # PLY / pathlib (SqParser.__init__ only) --------------------------------------------------
     def x_pathlib_Path(self, ex, args, kwargs):
@@ -809,6 +850,12 @@ class Stubs:
                     ex.use_assumption('A-REGEX-GROUPS: a pattern has at most 100000 capture groups')
                     r = ex.new_list(n, arr, 'tuple')
                     return L.TupleV(r)
+            if ex.branch(Val.okind(recv) == L.OK['pattern'], 'm-pattern'):
+                pat = getattr(ex, 'compiled', {}).get(L.simp(recv).get_id())
+                if name in ('search', 'match', 'fullmatch') and pat is not None:
+                    return self.x_regex_search(ex, [pat] + list(args), kwargs)
+                if name == 'findall' and pat is not None:
+                    return self.x_regex_findall(ex, [pat] + list(args), kwargs)
             return self.unknown_call(ex, 'method %s on opaque' % name, [recv] + [ex.to_val(a) for a in args])
         if ex.branch(L.is_Obj(recv), 'm-obj'):
             raise Unsupported('method %s on object of unknown class' % name)
@@ -949,7 +996,8 @@ class Stubs:
         def snap(e, r=r, kind=kind):
             hh = e.heap
             nn = hh.dlen(r)
-            e.assume(nn >= 0)
+            e.assume(z3.And(nn >= 0, nn <= F_CAP()))
+            e.last_snapshot_kind = 'dict'
             if kind == 'keys':
                 return nn, hh.arr('DKEY')[r]
             out = z3.Const(e.fresh_name(kind), z3.ArraySort(I, Val))
@@ -975,17 +1023,21 @@ class Stubs:
         if not ex.branch(self.model.hashable(key), 'hashable'):
             ex.raise_('TypeError', 'unhashable')
         if ex.branch(ex.heap.dhas(r, key), 'dict-has'):
+            ex.assume(ex.heap.dlen(r) >= 1)
             x = ex.known(ex.heap.dval(r, key))
             ex.assume_elem(x)
             return x
         return default
 
     def dict_pop(self, ex, recv, r, args, kwargs):
+        if not args:
+            ex.raise_('TypeError', 'pop expected at least 1 argument')
         key = ex.to_val(args[0])
         h = ex.heap
         if not ex.branch(self.model.hashable(key), 'hashable'):
             ex.raise_('TypeError', 'unhashable')
         if ex.branch(h.dhas(r, key), 'dict-has'):
+            ex.assume(ex.heap.dlen(r) >= 1)
             x = ex.known(h.dval(r, key))
             ex.assume_elem(x)
             ex.dict_write('pop', r, h.dlen(r) - 1, z3.Store(h.arr('DHAS')[r], key, z3.BoolVal(False)),
@@ -1066,6 +1118,25 @@ class Stubs:
 
     str_rstrip = str_strip
     str_lstrip = str_strip
+
+    def str_index(self, ex, recv, args, kwargs):
+        self._need_str(ex, args[0], 'index')
+        ex.may_raise(['ValueError'], 'substring not found')
+        j = ex.fresh_int('pos')
+        ex.assume(z3.And(j >= 0, j <= L.slen(Val.s(recv))))
+        return L.IntV(j)
+
+    def str_find(self, ex, recv, args, kwargs):
+        self._need_str(ex, args[0], 'find')
+        j = ex.fresh_int('pos')
+        ex.assume(z3.And(j >= -1, j <= L.slen(Val.s(recv))))
+        return L.IntV(j)
+
+    def str_count(self, ex, recv, args, kwargs):
+        self._need_str(ex, args[0], 'count')
+        j = ex.fresh_int('cnt')
+        ex.assume(z3.And(j >= 0, j <= L.slen(Val.s(recv)) + 1))
+        return L.IntV(j)
 
     def str_startswith(self, ex, recv, args, kwargs):
         p = ex.to_val(args[0])
